@@ -10,6 +10,7 @@ CONSTANTS
   SaveAsSet = {"none"}
   ContainMode = "ancestry"
   DestMode = "normalised"
+  CopyMode = "content"
   DenyFactories = {}
   DenyMax = 0
 POSTCONDITION Post
